@@ -154,10 +154,13 @@ package engine
 // Thin contracts used at call sites; each function is verified against its own clauses below.
 
 //@ func (*socket).onError(err)
-//@   props C03
+//@   props C03, C11, C12
 //@   requires sockLive(s)
 //@   modifies *
 //@   ensures [C03.transporterror] calls((*socket).OnClose) == 1 && arg((*socket).OnClose, 1, reason) == "transport error"
+// the session does not write its transport's state: closing the transport (which is what releases a pending poll) is left to
+// the teardown in OnClose, which needs the transport still open to do it
+//@   ensures [C11.onerror.keepsstate,C03.onerror.keepsstate,C12.onerror.keepsstate] calls(transports.Transport.SetReadyState) == 0
 //@ func (*socket).OnClose(reason, description)
 // write-site censuses (checked on the whole module): the session's state has one setter, and nothing else writes it
 //@   census [C03.state.census] (*socket).readyState written only by (*socket).SetReadyState, MakeSocket
@@ -271,7 +274,7 @@ package engine
 //@   let rs = old(s.ReadyState())
 //@   ensures [C03.sendafterclose,C01.discard] rs == "closing" || rs == "closed" ==> nevents() == 0
 //@   ensures s.Transport() != nil    // an upgrade may switch the transport while a packet is sent; there is always one
-//@   ensures [C01.accept] rs != "closing" && rs != "closed" ==> calls((*types.Slice).Push) >= 1 && emitted(s.EventEmitter, "packetCreate") == 1 && calls((*socket).flush) == 1
+//@   ensures [C01.accept,C08.accept] rs != "closing" && rs != "closed" ==> calls((*types.Slice).Push) >= 1 && emitted(s.EventEmitter, "packetCreate") == 1 && calls((*socket).flush) == 1
 //@   ensures [C18.packetCreateFirst] rs != "closing" && rs != "closed" ==> before(types.EventEmitter.Emit, 1, (*types.Slice).Push, 1) && before((*types.Slice).Push, 1, (*socket).flush, 1)
 //@   callsite (*types.Slice).Push#1
 //@     assert [C01.tailpush] $s == s.writeBuffer && len($elements) == 1 && $elements[0].Type == packetType && $elements[0].Data == data && $elements[0].Options != nil
@@ -789,7 +792,7 @@ package engine
 //@   ensures [C05.req.reject]    codeMessage != nil ==> calls((*server).emitAbortRequest) == 1 && calls(BaseServer.Handshake) == 0 && calls(transports.Transport.OnRequest) == 0 && nevents() == 1
 //@   ensures [C05.req.session,C12.req.closing]   codeMessage == nil && sid != "" && ret((*types.Map).Load, 1, 1) ==> calls(transports.Transport.OnRequest) == 1 && calls(BaseServer.Handshake) == 0 && calls(abortRequest) == 0
 //@   ensures [C04.req.unknown]   codeMessage == nil && sid != "" && !ret((*types.Map).Load, 1, 1) ==> calls(abortRequest) == 1 && arg(abortRequest, 1, codeMessage) == UNKNOWN_SID && calls(transports.Transport.OnRequest) == 0 && calls(BaseServer.Handshake) == 0
-//@   ensures [C05.req.handshake] codeMessage == nil && sid == "" ==> calls(BaseServer.Handshake) == 1 && calls(transports.Transport.OnRequest) == 0
+//@   ensures [C05.req.handshake,C06.req.handshake] codeMessage == nil && sid == "" ==> calls(BaseServer.Handshake) == 1 && calls(transports.Transport.OnRequest) == 0
 //@   ensures [C05.req.hsreject]  codeMessage == nil && sid == "" && ret(BaseServer.Handshake, 1, 1) == nil ==> calls(abortRequest) == 1 && arg(abortRequest, 1, codeMessage) == ret(BaseServer.Handshake, 1, 0) && calls((*server).emitAbortRequest) == 0
 //@   ensures [C05.req.hsaccept]  codeMessage == nil && sid == "" && ret(BaseServer.Handshake, 1, 1) != nil ==> calls(abortRequest) == 0
 
